@@ -63,7 +63,7 @@ def correspondence(ctx, model_ok):
         cases += list(tc.exhaustive_small(True))
     cases = [tc.make_case(ctx.rng, c['circuit'], c['outs']) for c in cases]
     r.count('source', 'fixed corpus + exhaustive small netlists', len(cases))
-    for _ in range(ctx.n(1500, 8000)):
+    for _ in range(ctx.n(1500, 20000)):
         cases.append(tc.random_case(ctx.rng))
     for case in cases:
         dump = case['circuit']
@@ -79,7 +79,7 @@ def correspondence(ctx, model_ok):
             r.count('gate_types', t)
             if t != 'INPUT':
                 r.count('arity', len(ops))
-    tcases = tc.template_cases(ctx.rng, ctx.n(60, 200))
+    tcases = tc.template_cases(ctx.rng, ctx.n(60, 400))
     for t in tcases:
         r.count('template_result', 'ok' if t['res'][0] == 'ok' else t['res'][1])
     r.evaluations += len(tcases)
